@@ -34,7 +34,7 @@ package couchbase
 //@ props C19
 //@ requires h != nil && h.config != nil && h.client != nil && ctx != nil
 //@ loop 1
-//@   modifies calls(couchbase.Client.Ping), calls(select.case), chan(uninterp("ctx.done", ctx))
+//@   modifies calls(couchbase.Client.Ping), calls(select.case), chan(uninterp("ctx.done", ctx)), chan(ticker.C)
 //@ ensures.stopped[C19] darg(select.case, dcalls(select.case) - 1, index) == 0
 //@ modifies calls(couchbase.Client.Ping), calls(select.case), chan(uninterp("ctx.done", ctx))
 
